@@ -16,6 +16,7 @@ type (
 	Weekday  = time.Weekday
 	Location = time.Location
 	Timer    = vsched.Timer
+	Ticker   = vsched.Ticker
 )
 
 const (
@@ -40,6 +41,9 @@ func Until(t Time) Duration { return t.Sub(Now()) }
 
 // NewTimer creates a virtual timer.
 func NewTimer(d Duration) *Timer { return vsched.NewTimer(d) }
+
+// NewTicker creates a virtual ticker.
+func NewTicker(d Duration) *Ticker { return vsched.NewTicker(d) }
 
 // After is NewTimer(d).C.
 func After(d Duration) *vsched.Chan[Time] { return vsched.NewTimer(d).C }
